@@ -61,7 +61,7 @@ impl Property for C18 {
     }
     fn plan(&self, _suite: SuiteId, tier: Tier) -> Vec<(u32, u32)> {
         // strata: 8 triples x 4 root classes x 2 key sources
-        (0..64).map(|s| (s, tier.pick(24, 240))).collect()
+        (0..64).map(|s| (s, tier.pick(24, 1200))).collect()
     }
     fn chunk(&self, _suite: SuiteId) -> u32 {
         6
